@@ -631,7 +631,7 @@ def isdatetype(
         >>> isdatetype(NewType("Foo", datetime.datetime))
         True
     """
-    return builtins.issubclass(origin(obj), datetime.date)
+    return _safe_issubclass(origin(obj), datetime.date)
 
 
 @compat.cache
@@ -650,7 +650,7 @@ def isdatetimetype(
         >>> isdatetype(NewType("Foo", datetime.datetime))
         True
     """
-    return builtins.issubclass(origin(obj), datetime.datetime)
+    return _safe_issubclass(origin(obj), datetime.datetime)
 
 
 @compat.cache
@@ -665,7 +665,7 @@ def istimetype(obj: type) -> compat.TypeIs[type[datetime.time]]:
         >>> istimetype(NewType("Foo", datetime.time))
         True
     """
-    return builtins.issubclass(origin(obj), datetime.time)
+    return _safe_issubclass(origin(obj), datetime.time)
 
 
 @compat.cache
@@ -680,7 +680,7 @@ def istimedeltatype(obj: type) -> compat.TypeIs[type[datetime.timedelta]]:
         >>> istimedeltatype(NewType("Foo", datetime.timedelta))
         True
     """
-    return builtins.issubclass(origin(obj), datetime.timedelta)
+    return _safe_issubclass(origin(obj), datetime.timedelta)
 
 
 @compat.cache
@@ -695,7 +695,7 @@ def isdecimaltype(obj: type) -> compat.TypeIs[type[decimal.Decimal]]:
         >>> isdecimaltype(NewType("Foo", decimal.Decimal))
         True
     """
-    return builtins.issubclass(origin(obj), decimal.Decimal)
+    return _safe_issubclass(origin(obj), decimal.Decimal)
 
 
 @compat.cache
@@ -710,7 +710,7 @@ def isfractiontype(obj: type) -> compat.TypeIs[type[fractions.Fraction]]:
         >>> isdecimaltype(NewType("Foo", fractions.Fraction))
         True
     """
-    return builtins.issubclass(origin(obj), fractions.Fraction)
+    return _safe_issubclass(origin(obj), fractions.Fraction)
 
 
 @compat.cache
@@ -729,7 +729,7 @@ def isuuidtype(obj: type) -> compat.TypeIs[type[uuid.UUID]]:
         >>> isuuidtype(NewType("Foo", uuid.UUID))
         True
     """
-    return builtins.issubclass(origin(obj), uuid.UUID)
+    return _safe_issubclass(origin(obj), uuid.UUID)
 
 
 @compat.cache
@@ -750,7 +750,7 @@ def isiterabletype(obj: type) -> compat.TypeIs[type[tp.Iterable]]:
         False
     """
     obj = origin(obj)
-    return builtins.issubclass(obj, tp.Iterable)
+    return _safe_issubclass(obj, tp.Iterable)
 
 
 @compat.cache
@@ -770,7 +770,7 @@ def isiteratortype(obj: type) -> compat.TypeIs[type[tp.Iterator]]:
         False
     """
     obj = origin(obj)
-    return builtins.issubclass(obj, tp.Iterator)
+    return _safe_issubclass(obj, tp.Iterator)
 
 
 @compat.cache
@@ -817,7 +817,7 @@ def issequencetype(obj: type) -> compat.TypeIs[type[tp.Collection]]:
         False
     """
     obj = origin(obj)
-    return obj in _COLLECTIONS or builtins.issubclass(obj, tp.Sequence)
+    return obj in _COLLECTIONS or _safe_issubclass(obj, tp.Sequence)
 
 
 @compat.cache
@@ -842,7 +842,7 @@ def iscollectiontype(obj: type) -> compat.TypeIs[type[tp.Collection]]:
         False
     """
     obj = origin(obj)
-    return obj in _COLLECTIONS or builtins.issubclass(obj, tp.Collection)
+    return obj in _COLLECTIONS or _safe_issubclass(obj, tp.Collection)
 
 
 _COLLECTIONS = {list, set, tuple, frozenset, dict, str, bytes}
@@ -897,7 +897,7 @@ def ismappingtype(obj: type) -> compat.TypeIs[type[tp.Mapping]]:
         True
     """
     obj = origin(obj)
-    return builtins.issubclass(obj, _MAPPING_TYPES) or builtins.issubclass(
+    return _safe_issubclass(obj, _MAPPING_TYPES) or _safe_issubclass(
         obj, tp.Mapping
     )
 
